@@ -134,6 +134,9 @@ def cmp_c02(case, i, m):
         return ("values", f"path `{case['pathText']}` from {case['focus']}: code reaches {i['values']} but the denotation is {m['values']}")
     if i["count"] != m["count"]:
         return ("count", f"path `{case['pathText']}`: code counts {i['count']} values, denotation has {m['count']}")
+    if not case.get("fetch") and "dup" in i and i["dup"] != m["dup"]:
+        return ("array", f"path `{case['pathText']}` from {case['focus']}: uniqueValues {'reports' if i['dup'] else 'does not report'} the node, but the array of reached values (one entry per route, {m['routes']} entries) "
+                         f"{'holds' if m['dup'] else 'does not hold'} a value twice: the array the constraint is applied to is not the path's denotation")
     return None
 
 
@@ -436,7 +439,7 @@ def hist_stream(ctx):
 
 def check_C09(ctx):
     return skeleton_check(ctx, "C09", "Acv.Props.C09", C09_THEOREMS, extra=hist_stream,
-        rule="histories of 4..9 documents (random graphs that pass/fail, repeats, empty graph, JSON-LD-rejected and undecodable documents) through one PreparedEvalQuery of a random declarative profile with validations on all three levels; each report compared byte for byte with a fresh ValidateWithConfiguration under a fixed clock",
+        rule="histories of 4..9 documents (random graphs that pass/fail, repeats, empty graph, JSON-LD-rejected and undecodable documents) through one PreparedEvalQuery of a random declarative profile with validations on all three levels (one history in six uses a profile that leaves `core`/`apiContract` to the built-in prefix table); in half of the histories OTHER profiles, which rebind built-in aliases or reuse `ex` for another namespace, are validated by the same process between the documents; each report compared byte for byte with a fresh ValidateWithConfiguration under a fixed clock",
         assumptions=["OPA's PreparedEvalQuery.Eval is a pure function of (query, input) returning fresh result trees: this is the hypothesis of history_independent (Engine.evalDoc) and is only observed by the history runs"])
 
 
@@ -954,10 +957,32 @@ def check_C06(ctx):
         ctx.coverage["distinct_nontrivial"] = len(cases)
         ctx.samples.append({"stream": "fresh-processes", "profile_head": cases[0]["profile"][:400]})
         ctx.oblige("search:byte-identical generated code and reports across fresh processes", bad == 0)
+        # any degree of concurrency: the same calls from many goroutines, byte-compared with their serial results
+        cbad, ccalls = 0, 0
+        crounds = 6 if ctx.quick() else 60
+        for r in range(crounds):
+            gor = [2, 4, 8, 16, 32, 64][r % 6]
+            p = subprocess.run([ACVH, "racestress", str(ctx.seed * 100 + 50 + r), str(gor), "8"], capture_output=True, text=True, timeout=1800)
+            out = None
+            for l in p.stdout.split("\n"):
+                if l.startswith("{"):
+                    out = json.loads(l)
+            if out is None or out.get("outcome") != "ok":
+                cbad += 1
+                ctx.violation("C06:concurrent-run-failed", f"concurrent run did not finish: rc={p.returncode} {p.stderr[-300:]}", {"round": r, "goroutines": gor, "stderr_tail": p.stderr[-1500:]})
+                continue
+            ccalls += out["calls"]
+            if out["mismatches"]:
+                cbad += 1
+                ctx.violation("C06:concurrent-report-differs", f"{gor} goroutines: {out['mismatches'][0]} ({len(out['mismatches'])} of {out['calls']} calls differ)",
+                              {"round": r, "goroutines": gor, "seed": ctx.seed * 100 + 50 + r, "summary": out, "replay_cmd": f"acvh racestress {ctx.seed * 100 + 50 + r} {gor} 8"})
+        ctx.coverage["streams"]["concurrent"] = {"rounds": crounds, "calls": ccalls, "goroutines": "2..64"}
+        ctx.coverage["evaluations"] += ccalls
+        ctx.oblige("search:reports under 2..64 concurrent goroutines byte-equal to their serial counterparts", cbad == 0)
     except Broken as b:
         broken.append(b)
     ctx.coverage["rule"] = ("profiles with 2..8 nested/atLeast/atMost constraints under one propertyConstraints map (several constraint keys per property, several prefixes), and repository fixtures; "
-                            "each generated and validated (fixed clock) in N fresh processes; all hashes must coincide. Concurrency: see C10's race stress, which compares parallel with serial reports.")
+                            "each generated and validated (fixed clock) in N fresh processes; all hashes must coincide. Concurrency: 6 (quick) / 60 (thorough) rounds of 2..64 goroutines x 8 calls mixing all entry points over 6 profiles, each result byte-compared with the serial one (C10 repeats this under the race detector).")
     ctx.assumptions += ["determinism of OPA (set ordering), json-gold, yaml.v3 and encoding/json (sorted map keys) is a dependency property: observed only",
                         "every range over a Go map in the library is one of the four inventoried sites (theorem sites_expected over the regenerated inventory)"]
     return conclude(ctx, broken, trusted=TRUST_COMMON + ["go/packages-based inventory extractor"])
@@ -976,6 +1001,11 @@ def cmp_c08(case, i, m):
     where = f"{case['builtin']} at position {case['position']} ({case['syntax']})"
     if i.get("outcome") == "panic":
         return ("panic", f"{where}: CompileProfile panicked: {str(i.get('err'))[:150]}")
+    if case.get("flaw"):
+        # a second defect in the same module: whichever the compiler reports, the profile must not be accepted
+        if i.get("outcome") == "accepted":
+            return ("forbidden-accepted:" + case["builtin"], f"{where} in a module that also has the flaw `{case['flaw']}`: the profile was ACCEPTED")
+        return None
     if m["forbidden"] and not i.get("unsafeRejected"):
         return ("forbidden-accepted:" + case["builtin"], f"{where}: the profile was {'ACCEPTED' if i.get('outcome') == 'accepted' else 'rejected for another reason: ' + str(i.get('err'))[:120]} - a forbidden built-in must be rejected by the deny-list")
     if bool(i.get("unsafeRejected")) != m["denied"]:
@@ -1006,7 +1036,7 @@ def check_C08(ctx):
         broken.append(b)
     ctx.coverage["rule"] = ("every built-in registered in the linked engine (thorough: all; quick: the 5 forbidden ones everywhere + a 6% sample of the rest) x 12 embedding positions (rego, regoModule, code/message form, not, and, or, if, "
                             "path-level rego, nested, atLeast, helper function in rego_extensions called from a rule, helper never called) x 4 call syntaxes (assignment, inside a comprehension, as argument of another call, bare statement); "
-                            "type-correct sample arguments from the built-in's declaration; only CompileProfile is called, so nothing is evaluated")
+                            "for the forbidden ones also modules with a second defect (keywords used as names, syntax/type errors, unknown functions, unsafe variables, unterminated strings); type-correct sample arguments from the built-in's declaration; only CompileProfile is called, so nothing is evaluated")
     ctx.assumptions += ["the engine's capability check (rego.UnsafeBuiltins) is a dependency: modelled at term level (C08Term), tied by the matrix", "js/validator.go (WASM entry, build-constrained) calls the same internal pipeline and is not loaded by the inventory"]
     return conclude(ctx, broken, trusted=TRUST_COMMON + ["go/packages-based inventory of engine API calls"])
 
